@@ -90,4 +90,117 @@ def targets(ctx):
         case["proto_names"] = draw(st.booleans())
         return case
 
-    return [Target("corpus_values_json_vs_reference", ev, strategy=strat(), quick=600, thorough=7000, time_quick=70)]
+    def strip_enums(schema_, mi_, tree_):
+        out_ = {}
+        for k, v in tree_.items():
+            fi = mi_.by_name(k)
+            leaf = fi.val if fi.card == "map" else fi
+            if leaf.type == "enum":
+                continue
+            if leaf.type == "message" and leaf.wkt is None:
+                sub = schema_.msg(leaf.msg)
+                if fi.card == "repeated":
+                    v = [strip_enums(schema_, sub, x) for x in v]
+                elif fi.card == "map":
+                    v = [[kk, strip_enums(schema_, sub, x)] for kk, x in v]
+                else:
+                    v = strip_enums(schema_, sub, v)
+            out_[k] = v
+        return out_
+
+    # ---- programs: grammar-generated schemas contribute the field-NAME dimension (JSON names of unusual identifiers)
+    def grammar_ev(case):
+        import random
+
+        from . import _grammar
+        from .c18 import simple_tree
+
+        with _grammar.compiled(case["ast"], tag="c05g_") as g:
+            if g.reason:
+                return Eval(discard=g.reason)
+            fails, n, nt, seen = [], 0, 0, set()
+            for vs in case["vseeds"]:
+                rng = random.Random(vs)
+                if not g.marks:
+                    break
+                for _ in range(6):
+                    mk = g.marks[rng.randrange(len(g.marks))]
+                    mi = g.schema.msg(g.fulls[mk])
+                    cls = g.classes[mk]
+                    tree = simple_tree(g.schema, mi.full_name, rng)
+                    # the enum-name-prefix finding is about enum VALUE names; keep it out of the name dimension
+                    tree = strip_enums(g.schema, mi, tree)
+                    want = norm(g.schema, mi, tree)
+                    n += 1
+                    nt += 1 if any(fi.json_name != fi.name or not fi.name.islower() for fi in mi.fields if fi.name in tree) else 0
+                    found = []
+                    try:
+                        m = guard("build", g.adapter.build, cls, mi, tree)
+                        text = guard("to_json", m.to_json)
+                        try:
+                            r = json_format.Parse(text, g.ref.cls(mi.full_name)())
+                            got = norm(g.schema, mi, snap_ref(g.schema, mi, r))
+                            if got != want:
+                                found.append(("bp_json_to_ref", f"reference reads {got!r:.200} want {want!r:.200}; json={text:.200}"))
+                        except json_format.ParseError as e:
+                            found.append(("bp_json_rejected_by_ref", f"{e}; json={text:.200}"))
+                        for pn in (False, True):
+                            rtext = json_format.MessageToJson(to_ref(g.schema, g.ref, mi.full_name, tree), preserving_proto_field_name=pn)
+                            m2 = guard("from_json_ref", cls().from_json, rtext)
+                            got = norm(g.schema, mi, guard("snapshot", snap_bp, g.schema, mi, m2))
+                            if got != want:
+                                found.append(("ref_json_to_bp" + ("_proto_names" if pn else ""), f"betterproto reads {got!r:.200} want {want!r:.200}; json={rtext:.200}"))
+                    except Guarded as gd:
+                        found.append((f"raises_{gd.where}_{type(gd.exc).__name__}", str(gd)))
+                    for cl, d in found:
+                        # which field names are the culprits? (single-field re-check)
+                        bad = []
+                        for k, v in tree.items():
+                            try:
+                                one = g.adapter.build(cls, mi, {k: v})
+                                r1 = json_format.Parse(one.to_json(), g.ref.cls(mi.full_name)())
+                                ok1 = norm(g.schema, mi, snap_ref(g.schema, mi, r1)) == norm(g.schema, mi, {k: v})
+                                rt = json_format.MessageToJson(to_ref(g.schema, g.ref, mi.full_name, {k: v}))
+                                ok2 = norm(g.schema, mi, snap_bp(g.schema, mi, cls().from_json(rt))) == norm(g.schema, mi, {k: v})
+                                if not (ok1 and ok2):
+                                    bad.append(k)
+                            except Exception:  # noqa: BLE001
+                                bad.append(k)
+                        from .c19 import classes as name_classes
+
+                        def names_in(fi_mi, t):
+                            out_ = set()
+                            for k2, v2 in t.items():
+                                out_.add(k2)
+                                f2 = fi_mi.by_name(k2)
+                                leaf = f2.val if f2.card == "map" else f2
+                                if leaf.type == "message" and leaf.wkt is None:
+                                    sub = g.schema.msg(leaf.msg)
+                                    subs = v2 if f2.card == "repeated" else ([x for _, x in v2] if f2.card == "map" else [v2])
+                                    for x in subs:
+                                        out_ |= names_in(sub, x)
+                            return out_
+
+                        all_names = names_in(mi, {k: tree[k] for k in bad}) if bad else set()
+                        import re as _re
+
+                        mkey = _re.search(r'no field named "([^"]+)"', d)
+                        if mkey:
+                            # the reference names the key it does not know: map it back to the proto field(s) that emit it
+                            from betterproto.casing import camel_case, safe_snake_case
+
+                            all_names = {f2.name for m2 in g.schema.messages.values() for f2 in m2.fields
+                                         if camel_case(safe_snake_case(f2.name)).rstrip("_") == mkey.group(1)} or all_names
+                        where = "+".join(sorted({c_ for k in all_names for c_ in name_classes(k)})) or "combo"
+                        sig = f"grammar|{cl}|name:{where}"
+                        if sig not in seen:
+                            seen.add(sig)
+                            fails.append(Failure(cl, sig, f"{mi.full_name} fields={bad} tree={tree!r:.300} :: {d}\n" + _grammar.protos_text(g.files)))
+            return Eval(fails, weight=max(1, n), nontrivial_count=nt, labels=["grammar_schema"])
+
+    from . import _grammar as _g
+
+    return [
+        Target("corpus_values_json_vs_reference", ev, strategy=strat(), quick=600, thorough=7000, time_quick=70),
+        Target("grammar_schema_json_names", grammar_ev, strategy=_g.strategy(), quick=3, thorough=40, time_quick=60, time_thorough=900, pin_budget=10, pin_sigs=1),
+    ]
